@@ -2,7 +2,11 @@ use std::collections::HashMap;
 use std::collections::hash_map::Entry;
 use std::fmt::Debug;
 use std::hash::Hash;
+#[cfg(not(loom))]
 use std::sync::Mutex;
+
+#[cfg(loom)]
+use loom::sync::Mutex;
 
 #[derive(Debug, Default)]
 pub struct ReferenceCounter<T: Eq + Hash> {
